@@ -61,7 +61,7 @@ def keep_c12(c, quick):
         return c["w"] in C12_W32 and (not quick or c["n"] == 9)
     if c["fn"] == "page_delta":
         return True
-    if c["fn"] in ("make_definitions", "read_plain_t", "ba_roundtrip"):
+    if c["fn"] in ("make_definitions", "read_plain_t", "ba_roundtrip", "dict_roundtrip"):
         return False
     if c["fn"] == "delta_unpack" and m.get("pattern") == "stale":
         return True
@@ -1766,3 +1766,59 @@ FNS["page_delta"] = dict(model=lambda c: ("uleb_enc", 0), tagged=False, views=_i
                          spec=lambda c: ("delta_dec", 64 if c["longval"] else 32, _inp(c)), oracle=_pd_oracle, safe=lambda c: True,
                          cls=lambda c: {"longval": c["longval"], "version": c["version"], "adt": c["adt"]}, trivial=lambda c: False)
 EXTRA_GENERATORS.append(gen_page_delta)
+
+
+# =============================================================================================
+# encoder -> decoder round trip of the dictionary-index block: writer.encode_dict -> core.read_data_page / read_data_page_v2
+# =============================================================================================
+
+def gen_dict_roundtrip(rng, quick):
+    """'every encoder's output decodes back to its input' for the whole-byte index run: the codes pandas holds for a categorical of
+    ncat categories (int8 / int16 / int32 by ncat), ncat around the representation boundaries of the code and of the index width,
+    pages that USE the highest codes; read back the way fastparquet reads its own pages (v1, v2 categorical, v2 de-reference) and
+    as a foreign file."""
+    cases = []
+    ncats = [1, 2, 127, 128, 129, 200, 255, 256, 257, 32767, 32768, 32769, 40000, 65535, 65536, 65537] + ([] if quick else [3, 100, 1000, 70000, 100000])
+    for ncat in ncats:
+        for n in ((9, 40) if quick else (1, 8, 9, 40, 200)):
+            for optional in (False, True):
+                levels = [1] * n if not optional else [0 if (i % 4 == 1) else 1 for i in range(n)]
+                nval = sum(levels)
+                top = ncat - 1
+                ext = [top, 0, top // 2, min(top // 2 + 1, top)] + [v for v in (127, 128, 255, 256, 32767, 32768, 65535, 65536) if v <= top]
+                codes = (ext + [rng.randrange(ncat) for _ in range(nval)])[:nval]
+                rng.shuffle(codes)
+                cases.append({"fn": "dict_roundtrip", "ncat": ncat, "n": n, "optional": optional, "levels": levels, "codes": codes,
+                              "stream": "main", "meta": {}})
+    return cases
+
+
+def _dr_oracle(c, r, so, guard):
+    if r[0] != "ok":
+        return [(r[0], "encode_dict -> page readers: %r" % (r[:3],))]
+    res = r[1]
+    probs = []
+    it_codes = c["codes"]
+    for key, got in sorted(res.items()):
+        if key in ("enc", "codes_dtype"):
+            continue
+        if key.startswith("v1"):
+            want = list(it_codes)
+        else:
+            it = iter(it_codes)
+            null = -1 if key.endswith("cat") else None
+            want = [next(it) if lv else null for lv in c["levels"]]
+        if got != want:
+            bad = got if (got and got[0] == "exc") else [(i, a, b) for i, (a, b) in enumerate(zip(got, want)) if a != b][:4]
+            probs.append(("values", "the index block writer.encode_dict wrote for %d codes of dtype %s (%d categories; width byte %d) does not "
+                          "decode back to its input through %s [page version / selfmade / mode]: (position, got, wrote) %r"
+                          % (len(it_codes), res.get("codes_dtype"), c["ncat"], bytes.fromhex(res["enc"])[0] if res.get("enc") else -1, key, bad)))
+            break
+    return probs
+
+
+FNS["dict_roundtrip"] = dict(model=lambda c: ("uleb_enc", 0), tagged=False, views=_info_views("none"), spec=lambda c: ("uleb_enc", 0),
+                             oracle=_dr_oracle, safe=lambda c: True,
+                             cls=lambda c: {"ncat_class": "int8" if c["ncat"] <= 128 else "int16" if c["ncat"] <= 32768 else "int32", "optional": c["optional"]},
+                             trivial=lambda c: not c["codes"])
+EXTRA_GENERATORS.append(gen_dict_roundtrip)
